@@ -4,6 +4,7 @@ import math
 from fractions import Fraction as Fr
 
 from ..srcmodel import AnalysisError
+from ..stages import estimates
 from ..algebra import Poly, Z8
 from .. import ndarr
 from ..ndarr import Arr, InterpRaise
@@ -146,12 +147,12 @@ def hess_order(ctx):
         rule = obj.attrs['fd_rule']
         order_obj = I.getattr(obj, 'order')
         mo, rs = I.getattr(rule, 'method_order'), I.getattr(rule, 'richardson_step')
-        (der, h, shape), fxi = I.getattr(obj, '_derivative_nonzero_order')(x, (), {})
+        (der, h, shape), fxi = estimates(I, obj, x)
         rich = obj.attrs['richardson']
         want = (1, 1) if method in ('forward', 'backward') else (2, 2)
         has_w = any(isinstance(v, FV) and any('W' in a for inner in v.terms.values() for c in inner.values() for a in c.atoms())
                     for v in der.items())
-        ok = (mo, rs) == want and rich.attrs.get('order') == mo and rich.attrs.get('step') == rs and not has_w and \
+        ok = (mo, rs) == want and I.getattr(rich, 'order') == mo and I.getattr(rich, 'step') == rs and not has_w and \
             order_obj == (1 if method in ('forward', 'backward') else 2) and tuple(shape) == (2, 2)
         rep.check(ok, 'R-HESS-ORDER', 'core.Hessian.__init__', core.relpath,
                   {'order': order_obj, 'method_order': mo, 'richardson_step': rs,
